@@ -429,6 +429,14 @@ func exploreDoc(scen string, d gen.DDoc, k int, st *mc.Stats) {
 			opt.CommentText = x.Choose(len(gen.D822Comments), "comment-text") // part of the same deviation: every comment shape
 			devs = append(devs, fmt.Sprintf("comment-text=%d", opt.CommentText))
 		}
+		// one line, or every line from some line on, with the other line ending
+		nl2 := nl
+		if opt.CommentAt > 0 {
+			nl2++
+		}
+		if c := dev(2*nl2+1, "other-ending"); c > 0 {
+			opt.FlipAt, opt.FlipFrom = (c-1)%nl2+1, c > nl2
+		}
 		text := d.Render(opt)
 		del := gen.DeliveryForChoice(dev(gen.DeliveryModes(len(text)), "delivery"))
 		in := In{text, expected, del, devs}
@@ -457,7 +465,8 @@ func exploreDoc(scen string, d gen.DDoc, k int, st *mc.Stats) {
 
 func Run(r *mc.Run) {
 	r.Rule = "deb822 documents rendered from a model: all single-field shapes (11 first lines x every sequence of 0..2 continuation lines over 17 line shapes; thorough: also every sequence of exactly 3, under one deviation), all paragraphs of <=3 fields over 6 representative shapes, all documents of <=3 paragraphs over 8 representative paragraphs; rendering deviations (CRLF, key/value spacing, blank-line runs before/between/after, missing final newline, a comment of five shapes at every physical line boundary, byte delivery incl. a split at every offset, the final bytes together with io.EOF, answers without bytes) up to the deviation bound; 9 access paths per execution incl. decoding into typed members; field names recurring in other letter cases in later paragraphs; all interleavings of the calls of 2-3 readers alive at once. Invariant: all strings up to the length bound over 'A : space \\n # . \\r \\t'. Non-trivial = at least one deviation (well-formed) / at least one paragraph returned (invariant); distinct by construction"
-	r.Assume = []string{"an empty first line contributes no logical line (the convention all typed parsers rely on: 'Files:' followed by indented lines)",
+	r.Assume = []string{"'trailing whitespace' is read as Unicode white space (unicode.IsSpace: also form feed, vertical tab, NBSP, ideographic space), on key lines and continuation lines alike",
+		"an empty first line contributes no logical line (the convention all typed parsers rely on: 'Files:' followed by indented lines)",
 		"whitespace-only lines are not blank lines (not part of the statement's well-formed documents)"}
 
 	// base documents
